@@ -214,7 +214,14 @@ def runTrace {σ μ : Type} (sc : Scen σ μ) (header : String) (lines : List St
         let implObsAll := args (tokens o)
         -- `pagediff` is the harness's own, model-independent C20 audit of the listings
         let pagediff := implObsAll.str "pagediff"
-        let implObs : Args := implObsAll.filter (fun (p : String × String) => p.1 != "pagediff")
+        -- `hdiff`: likewise, the cw4 helper functions against the group's own smart queries (C09)
+        let hdiff := implObsAll.str "hdiff"
+        let implObs : Args := implObsAll.filter (fun (p : String × String) => p.1 != "pagediff" && p.1 != "hdiff")
+        let st :=
+          if hdiff != "" && !st.seen.contains "C09/helper-vs-smart-query" then
+            { st with seen := "C09/helper-vs-smart-query" :: st.seen,
+                      out := s!"T {tid} MONITOR prop=C09 step={k} sig=C09/helper-vs-smart-query detail={sanitize hdiff} op={r.op}" :: st.out }
+          else st
         let st :=
           if pagediff != "" && !st.seen.contains "C20/paging-inconsistent" then
             { st with seen := "C20/paging-inconsistent" :: st.seen,
